@@ -22,7 +22,7 @@ RULE = (
     'the object reports; subset / state-consistency / monotonicity for stricter settings.  Non-trivial = the '
     'history has at least one default jump; distinct = SHA-1 of (states, inner, inner fraction).'
 )
-RULE += ' Added in rounds 6-10: the settings are queried in shuffled order on the same object; the same history with a chronological (instead of grouped-by-atom) event table must give the same jumps; framework atoms listed before / between the diffusing atoms. Round 13: the re-presented event table also with its named columns in another order.'
+RULE += ' Added in rounds 6-10: the settings are queried in shuffled order on the same object; the same history with a chronological (instead of grouped-by-atom) event table must give the same jumps; framework atoms listed before / between the diffusing atoms. Round 13: the re-presented event table also with its named columns in another order. Round 16: row labels that restart for every atom (pd.concat of per-atom tables).'
 ASSUMPTIONS = [
     "ValueError('No jumps found') is the API's encoding of the empty jump set (accepted iff allowed by the model)",
     'site states reported by Transitions are taken as given (their geometric correctness is C02)',
@@ -235,8 +235,13 @@ def run_unit(unit, rng, ctx):
         from gemdat.transitions import Transitions
 
         ev = tr.events
-        how = str(rng.choice(['by_time', 'by_time_fresh_labels', 'shuffled']))
+        how = str(rng.choice(['by_time', 'by_time_fresh_labels', 'shuffled', 'per_atom_labels']))
         ev2 = ev.sort_values(['time', 'atom index'], kind='stable') if how != 'shuffled' else ev.sample(frac=1.0, random_state=int(rng.integers(2**31)))
+        if how == 'per_atom_labels':
+            # the same rows in the same order, assembled per atom with pd.concat: the row labels restart at 0 for every atom
+            import pandas as pd
+
+            ev2 = pd.concat([g_.reset_index(drop=True) for _, g_ in ev.groupby('atom index', sort=False)])
         if how == 'by_time_fresh_labels':
             ev2 = ev2.reset_index(drop=True)
         if rng.integers(2):
